@@ -1,22 +1,34 @@
 /-
 C16 — Multi-DEX analysis is independent of how the code is split and ordered.
 `view` (AgVerif/Proof/XrefView.lean) is everything observable with the association-list order forgotten.
-The model identifies Python objects by the key they are registered under, which mirrors the code only
-when class names are distinct across the added DEX files (with a repeated class name the code keeps
-the objects of the last added DEX); hence the hypothesis, which the proofs themselves do not need.
+
+What is and is not in these statements.  The model identifies a Python object with the key the code
+registers it under (class name; (class, name, descriptor); (holding class, field); string value).
+* `analyse_perm`, `analyse_split`, `analyse_regroup`, `analyse_same_dex_twice` hold for EVERY list of DEX
+  files — they need no distinctness hypothesis, because in the key-based model two definitions of one class
+  name are one class whose members are the union of both (`duplicate_class_is_merged`).
+* The CODE is not key-based there: with a repeated class name the ClassAnalysis of the DEX added last
+  replaces the earlier one in `Analysis.classes` (its FieldAnalysis objects are dropped), while the methods
+  of both copies stay in `Analysis.methods`.  So the model mirrors the code only on `DistinctClassNames`
+  programs, which is exactly the property's quantifier ("DEX files with distinct class names").  What the
+  hypothesis buys is stated on its own: under it the keying is injective — a class name has one definition
+  and every analysed method/field key one owner (`class_definition_unique`, `member_owner_unique`).
+  For repeated class names the real code is judged directly, on objects, by the duplicate-class stream of
+  the harness (winner-independent part of C13/C15), not by these theorems.
 -/
 import AgVerif.Proof.XrefView
 
 namespace AgVerif.C16
 open AgVerif.Xref
 
+/-- the property's quantifier: no class name is defined twice among the added DEX files -/
 def DistinctClassNames (ds : List Dex) : Prop := ((Spec.allClasses ds).map (·.name)).Nodup
 
 /-- the single DEX holding all classes (and all pool strings) -/
 def mergeDex (ds : List Dex) : Dex := ⟨ds.flatMap (·.classes), ds.flatMap (·.strings)⟩
 
 /-- any add order gives the same view -/
-theorem analyse_perm (ds₁ ds₂ : List Dex) (h : ds₁.Perm ds₂) (_hd : DistinctClassNames ds₁) :
+theorem analyse_perm (ds₁ ds₂ : List Dex) (h : ds₁.Perm ds₂) :
     view (analyse ds₁) = view (analyse ds₂) := by
   apply view_congr
   constructor
@@ -32,7 +44,7 @@ theorem analyse_perm (ds₁ ds₂ : List Dex) (h : ds₁.Perm ds₂) (_hd : Dist
     · rintro ⟨d, hd, hc⟩; exact ⟨d, h.mem_iff.2 hd, hc⟩
 
 /-- any split into DEX files gives the same view as one DEX holding all the classes -/
-theorem analyse_split (ds : List Dex) (_hd : DistinctClassNames ds) :
+theorem analyse_split (ds : List Dex) :
     view (analyse ds) = view (analyse [mergeDex ds]) := by
   apply view_congr
   constructor
@@ -40,9 +52,60 @@ theorem analyse_split (ds : List Dex) (_hd : DistinctClassNames ds) :
   · intro s; simp [Spec.InPool, mergeDex, List.mem_flatMap]
 
 /-- more generally: any two arrangements of the same classes and pool strings -/
-theorem analyse_regroup (ds₁ ds₂ : List Dex) (h : SameContent ds₁ ds₂) (_hd : DistinctClassNames ds₁) :
+theorem analyse_regroup (ds₁ ds₂ : List Dex) (h : SameContent ds₁ ds₂) :
     view (analyse ds₁) = view (analyse ds₂) :=
   view_congr h
+
+/-- adding every DEX a second time (the same file parsed twice) changes nothing in the view -/
+theorem analyse_same_dex_twice (ds : List Dex) : view (analyse (ds ++ ds)) = view (analyse ds) := by
+  apply view_congr
+  constructor
+  · intro c; simp [Spec.allClasses, List.flatMap_append]
+  · intro s
+    simp only [Spec.InPool, List.mem_append]
+    constructor
+    · rintro ⟨d, hd | hd, hs⟩ <;> exact ⟨d, hd, hs⟩
+    · rintro ⟨d, hd, hs⟩; exact ⟨d, Or.inl hd, hs⟩
+
+/-- what `DistinctClassNames` buys: a class name has exactly one definition … -/
+theorem class_definition_unique (ds : List Dex) (hd : DistinctClassNames ds) (c₁ c₂ : Class)
+    (h₁ : c₁ ∈ Spec.allClasses ds) (h₂ : c₂ ∈ Spec.allClasses ds) (hn : c₁.name = c₂.name) : c₁ = c₂ := by
+  unfold DistinctClassNames at hd
+  generalize Spec.allClasses ds = l at hd h₁ h₂
+  induction l with
+  | nil => cases h₁
+  | cons x r ih =>
+    simp only [List.map_cons, List.nodup_cons, List.mem_map, not_exists, not_and] at hd
+    rcases List.mem_cons.1 h₁ with rfl | h₁' <;> rcases List.mem_cons.1 h₂ with rfl | h₂'
+    · rfl
+    · exact absurd hn.symm (hd.1 c₂ h₂')
+    · exact absurd hn (hd.1 c₁ h₁')
+    · exact ih hd.2 h₁' h₂'
+
+/-- … so every analysed method key and field key has exactly one owning class definition: on such programs
+"the object registered under a key" is well defined, which is what the key-based model assumes -/
+theorem member_owner_unique (ds : List Dex) (hd : DistinctClassNames ds) (k : MKey)
+    (h : Spec.DefinedM ds k ∨ Spec.DefinedF ds k) :
+    ∃ c, (c ∈ Spec.allClasses ds ∧ c.name = k.1) ∧ ∀ c', c' ∈ Spec.allClasses ds ∧ c'.name = k.1 → c' = c := by
+  have : ∃ c, c ∈ Spec.allClasses ds ∧ c.name = k.1 := by
+    rcases h with ⟨c, hc, m, _, rfl⟩ | ⟨c, hc, f, _, rfl⟩ <;> exact ⟨c, hc, rfl⟩
+  obtain ⟨c, hc, hn⟩ := this
+  exact ⟨c, ⟨hc, hn⟩, fun c' h' => class_definition_unique ds hd c' c h'.1 hc (h'.2.trans hn.symm)⟩
+
+/-- two DEX files defining the same class name with different bodies -/
+def dupProg : List Dex :=
+  [⟨[⟨"LA;", [("x", "I")], [⟨"m", "()V", []⟩]⟩], []⟩,
+   ⟨[⟨"LA;", [("y", "J")], [⟨"n", "()V", []⟩]⟩], []⟩]
+
+/-- where the key-based model stops mirroring the code: a repeated class name is ONE class holding the members
+of both definitions (the code keeps only the last added definition's ClassAnalysis and FieldAnalysis objects) -/
+theorem duplicate_class_is_merged :
+    ¬ DistinctClassNames dupProg ∧
+    (analyse dupProg).classes = [("LA;", false)] ∧
+    dget (analyse dupProg).methods ("LA;", "m", "()V") = some false ∧
+    dget (analyse dupProg).methods ("LA;", "n", "()V") = some false ∧
+    (analyse dupProg).fields = [("LA;", ("LA;", "x", "I")), ("LA;", ("LA;", "y", "J"))] := by
+  refine ⟨by unfold DistinctClassNames; decide +kernel, ?_, ?_, ?_, ?_⟩ <;> decide +kernel
 
 /-- cross-DEX resolution: a call into a class of another DEX resolves to the analysed method -/
 theorem cross_dex_resolution (ds : List Dex) (k : MKey) (h : Spec.DefinedM ds k) :
@@ -56,6 +119,7 @@ def exProg : List Dex :=
 
 example : DistinctClassNames exProg := by unfold DistinctClassNames; decide +kernel
 example : exProg.Perm exProg.reverse := (List.reverse_perm _).symm
+example : view (analyse exProg) = view (analyse exProg.reverse) := analyse_perm _ _ (List.reverse_perm _).symm
 example : (analyse exProg).mRead = [(("LB;", "n", "()V"), ("LA;", "x", "I"), 0)] := by decide +kernel
 example : (analyse [mergeDex exProg]).mRead = [(("LB;", "n", "()V"), ("LA;", "x", "I"), 0)] := by decide +kernel
 
